@@ -65,3 +65,28 @@ Theorem C08_loaded_good : forall mb, 1 <= mb -> forall tab,
   forall txt s, b_load mb tab txt = Ok s -> Good mb s.
 Proof. intros mb Hmb tab Htab txt s Hl. exact (proj1 (b_load_good mb Hmb (map fst tab) tab eq_refl Htab txt s Hl)). Qed.
 Print Assumptions C08_loaded_good.
+
+(* ---- the specification itself is the filesystem one expects (sanity of the Spec instance) ---- *)
+From AV Require Import proofs.CFS_spec_sanity.
+Theorem C08_spec_write_then_read : forall (f : list CFS_file.byte) p d,
+  let '(f', _) := s_write f p d in let '(r, _, _) := s_read f' (List.length d) p in r = d.
+Proof. exact spec_write_then_read. Qed.
+Print Assumptions C08_spec_write_then_read.
+
+Theorem C08_spec_write_frame : forall (f : list CFS_file.byte) p d,
+  let '(f', _) := s_write f p d in
+  firstn p f' = firstn p (f ++ zeros (p - List.length f)) /\
+  skipn (p + List.length d) f' = skipn (p + List.length d) (f ++ zeros (p - List.length f)).
+Proof. exact spec_write_frame. Qed.
+Print Assumptions C08_spec_write_frame.
+
+(* failing directory operations change nothing *)
+Theorem C08_spec_rename_error_unchanged : forall s a b e,
+  snd (rename Spec s a b) = Err e -> fst (rename Spec s a b) = s.
+Proof. exact spec_rename_error_unchanged. Qed.
+Print Assumptions C08_spec_rename_error_unchanged.
+
+Theorem C08_spec_remove_error_unchanged : forall s name e,
+  snd (remove Spec s name) = Err e -> fst (remove Spec s name) = s.
+Proof. exact spec_remove_error_unchanged. Qed.
+Print Assumptions C08_spec_remove_error_unchanged.
